@@ -109,6 +109,79 @@ Proof.
   mod_close_any.
 Qed.
 
+(* ---- relations BETWEEN the keypoint maps (dihedral group of the xy plane), angle and scale included ---- *)
+Section Dihedral.
+Variables r c s : Z.
+
+(* a quarter turn = transpose, then the vertical flip in the transposed frame (rows = c) *)
+Lemma kp_rot90_is_transpose_vflip k : angle_ok k ->
+  res_kp_eq (keypoint_rot90 k 1 "xy" r c s) (Ok (keypoint_vflip (keypoint_transpose k) c r s)).
+Proof.
+  destruct_kp k. intros [A0 A1]. unfold M in A1. pose proof pi_pos as P.
+  unfold keypoint_rot90, keypoint_rot90_raw, keypoint_vflip, keypoint_vflip_raw, keypoint_transpose. cbn.
+  destruct (Qle_bool_spec ka (pi / 2)); to_norm; repeat split; try lra; ang_eq.
+Qed.
+
+(* three quarter turns = transpose, then the horizontal flip in the transposed frame (cols = r) *)
+Lemma kp_rot270_is_transpose_hflip k : angle_ok k ->
+  res_kp_eq (keypoint_rot90 k 3 "xy" r c s) (Ok (keypoint_hflip (keypoint_transpose k) c r s)).
+Proof.
+  destruct_kp k. intros [A0 A1]. unfold M in A1. pose proof pi_pos as P.
+  unfold keypoint_rot90, keypoint_rot90_raw, keypoint_hflip, keypoint_hflip_raw, keypoint_transpose. cbn.
+  destruct (Qle_bool_spec ka (pi / 2)); to_norm; repeat split; try lra; ang_eq.
+Qed.
+
+(* a half turn of the xy plane = both flips of that plane *)
+Lemma kp_rot180_is_two_flips k :
+  res_kp_eq (keypoint_rot90 k 2 "xy" r c s) (Ok (keypoint_vflip (keypoint_hflip k r c s) r c s)).
+Proof.
+  destruct_kp k.
+  unfold keypoint_rot90, keypoint_rot90_raw, keypoint_vflip, keypoint_vflip_raw, keypoint_hflip, keypoint_hflip_raw. cbn.
+  to_norm; repeat split; try lra; ang_eq.
+Qed.
+
+(* conjugating k quarter turns of the xy plane by the vertical flip gives 4-k quarter turns *)
+Lemma kp_vflip_conjugates_rot90 k n : In n factors ->
+  res_kp_eq (do k1 <- keypoint_rot90 (keypoint_vflip k r c s) n "xy" r c s;
+             Ok (let '(r1, c1, s1) := rot_frame "xy" n (r, c, s) in keypoint_vflip k1 r1 c1 s1))
+            (keypoint_rot90 k ((4 - n) mod 4) "xy" r c s).
+Proof.
+  intros Hn. destruct_kp k. unfold factors in Hn.
+  in_cases Hn;
+  unfold rot_frame, keypoint_rot90, keypoint_rot90_raw, keypoint_vflip, keypoint_vflip_raw; cbn; to_norm;
+  repeat split; try lra; ang_eq.
+Qed.
+
+(* the flip along z commutes with the quarter turns of the xy plane *)
+Lemma kp_zflip_commutes_rot90_xy k n : In n factors ->
+  res_kp_eq (do k1 <- keypoint_rot90 k n "xy" r c s; Ok (keypoint_zflip k1 r c s))
+            (keypoint_rot90 (keypoint_zflip k r c s) n "xy" r c s).
+Proof.
+  intros Hn. destruct_kp k. unfold factors in Hn.
+  in_cases Hn;
+  unfold keypoint_rot90, keypoint_rot90_raw, keypoint_zflip, keypoint_zflip_raw; cbn; to_norm;
+  repeat split; try lra; ang_eq.
+Qed.
+
+(* factor n is n single quarter turns (each in the frame the previous one left) *)
+Lemma kp_rot90_two f k ax : In ax planes ->
+  res_kp_eq (do k1 <- kp_rot90_in f k 1 ax; kp_rot90_in (rot_frame ax 1 f) k1 1 ax) (kp_rot90_in f k 2 ax).
+Proof.
+  intros Ha. destruct f as [[r0 c0] s0]. destruct_kp k. unfold planes in Ha.
+  in_cases Ha;
+  unfold kp_rot90_in, rot_frame, keypoint_rot90, keypoint_rot90_raw; cbn; to_norm;
+  repeat split; try lra; ang_eq.
+Qed.
+Lemma kp_rot90_three f k ax : In ax planes ->
+  res_kp_eq (do k1 <- kp_rot90_in f k 2 ax; kp_rot90_in f k1 1 ax) (kp_rot90_in f k 3 ax).
+Proof.
+  intros Ha. destruct f as [[r0 c0] s0]. destruct_kp k. unfold planes in Ha.
+  in_cases Ha;
+  unfold kp_rot90_in, rot_frame, keypoint_rot90, keypoint_rot90_raw; cbn; to_norm;
+  repeat split; try lra; ang_eq.
+Qed.
+End Dihedral.
+
 (* non-vacuity: a concrete keypoint meeting the hypotheses *)
 Example angle_ok_example : angle_ok (3, 4, 5, 1, 2).
 Proof. unfold angle_ok, M. pose proof pi_pos. split; [lra|]. 
